@@ -102,6 +102,8 @@ type World struct {
 	// Counter is a contract installed on every chain that increments its storage slot 0 on every call; used as
 	// the sender's callback address to count how often the packet contract runs the callback.
 	Counter common.Address
+	// Bomb is a contract installed on every chain that loops until it runs out of gas.
+	Bomb common.Address
 
 	Pkts     []*Pkt
 	Accepted []map[Triple]bool // per chain: triples whose receive was accepted
@@ -158,6 +160,11 @@ func NewWorldOpts(n int, seed []byte, o WorldOpts) *World {
 	for _, c := range w.Chains {
 		// PUSH1 0 SLOAD PUSH1 1 ADD PUSH1 0 SSTORE STOP
 		c.App.SetEVMCode(c.Ctx(), w.Counter, []byte{0x60, 0x00, 0x54, 0x60, 0x01, 0x01, 0x60, 0x00, 0x55, 0x00})
+	}
+	w.Bomb = common.HexToAddress("0x00000000000000000000000000000000C0FFEE02")
+	for _, c := range w.Chains {
+		// JUMPDEST PUSH1 0 JUMP
+		c.App.SetEVMCode(c.Ctx(), w.Bomb, []byte{0x5b, 0x60, 0x00, 0x56})
 	}
 	big1 := new(big.Int).Lsh(big.NewInt(1), 200)
 	for i, c := range w.Chains {
@@ -292,6 +299,8 @@ func (w *World) CallData(kind string, dst int) (string, []byte) {
 	case kind == "revert":
 		d, _ := erc20ABI.Pack("transfer", w.Users[1].Addr, big.NewInt(5)) // the execute contract holds no balance
 		return strings.ToLower(w.Target[dst].String()), d
+	case kind == "gasbomb":
+		return strings.ToLower(w.Bomb.Hex()), []byte{1}
 	case kind == "hookfail":
 		d, _ := stakingcontract.StakingContract.ABI.Pack("delegate", "teleportvaloper1invalid", big.NewInt(1))
 		return syscontracts.StakingContractAddress, d
